@@ -1,78 +1,99 @@
 /-
-  Proof/MultiChanS1.lean — `MultiChan.Inv` is preserved by the events of group S1
-  (one lemma per event; several modules so that they compile in parallel).
+  Proof/MultiChanS1.lean — `MultiChan.Inv` (one-list discipline) is preserved by the events of
+  group S1 (one lemma per event; several modules so that they compile in parallel).
 -/
 import LibfiberVerif.Proof.MultiChanInv
 
 set_option linter.unusedSimpArgs false
+set_option linter.unusedVariables false
 
 namespace LibfiberVerif.MultiChan
 
 set_option maxHeartbeats 4000000 in
-theorem inv_step_callSend (s s' : St) (f v : _) (hi : Inv s) (hs : step s (.callSend f v) = some s') : Inv s' := by
+theorem inv_step_callSend (s s' : St) (f v : _) (htwo : s.two = false) (hi : Inv s) (hs : step s (.callSend f v) = some s') : Inv s' := by
   have hI := hi
   obtain ⟨h1, h2, h3, h4, h5, h6, h7, h8, h9, h10, h11, h12, h13, h14, h15, h16, h17, h18, h19, h20, h21, h22, h23, h24, h25, h26, h27, h28, h29, h30, h31, h32⟩ := hi
-  simp only [step] at hs
+  simp only [step, htwo] at hs
   repeat' (split at hs)
   all_goals (try simp at hs)
   all_goals (first | subst hs | (obtain ⟨_, hs⟩ := hs; subst hs))
   all_goals (constructor <;> mc_close)
 
 set_option maxHeartbeats 4000000 in
-theorem inv_step_retSend (s s' : St) (f : _) (hi : Inv s) (hs : step s (.retSend f) = some s') : Inv s' := by
+theorem inv_step_retSend (s s' : St) (f : _) (htwo : s.two = false) (hi : Inv s) (hs : step s (.retSend f) = some s') : Inv s' := by
   have hI := hi
   obtain ⟨h1, h2, h3, h4, h5, h6, h7, h8, h9, h10, h11, h12, h13, h14, h15, h16, h17, h18, h19, h20, h21, h22, h23, h24, h25, h26, h27, h28, h29, h30, h31, h32⟩ := hi
-  simp only [step] at hs
+  simp only [step, htwo] at hs
   repeat' (split at hs)
   all_goals (try simp at hs)
   all_goals (first | subst hs | (obtain ⟨_, hs⟩ := hs; subst hs))
   all_goals (constructor <;> mc_close)
 
 set_option maxHeartbeats 4000000 in
-theorem inv_step_callRecv (s s' : St) (f : _) (hi : Inv s) (hs : step s (.callRecv f) = some s') : Inv s' := by
+theorem inv_step_callRecv (s s' : St) (f : _) (htwo : s.two = false) (hi : Inv s) (hs : step s (.callRecv f) = some s') : Inv s' := by
   have hI := hi
   obtain ⟨h1, h2, h3, h4, h5, h6, h7, h8, h9, h10, h11, h12, h13, h14, h15, h16, h17, h18, h19, h20, h21, h22, h23, h24, h25, h26, h27, h28, h29, h30, h31, h32⟩ := hi
-  simp only [step] at hs
+  simp only [step, htwo] at hs
   repeat' (split at hs)
   all_goals (try simp at hs)
   all_goals (first | subst hs | (obtain ⟨_, hs⟩ := hs; subst hs))
   all_goals (constructor <;> mc_close)
 
 set_option maxHeartbeats 4000000 in
-theorem inv_step_retRecv (s s' : St) (f v : _) (hi : Inv s) (hs : step s (.retRecv f v) = some s') : Inv s' := by
+theorem inv_step_retRecv (s s' : St) (f v : _) (htwo : s.two = false) (hi : Inv s) (hs : step s (.retRecv f v) = some s') : Inv s' := by
   have hI := hi
   obtain ⟨h1, h2, h3, h4, h5, h6, h7, h8, h9, h10, h11, h12, h13, h14, h15, h16, h17, h18, h19, h20, h21, h22, h23, h24, h25, h26, h27, h28, h29, h30, h31, h32⟩ := hi
-  simp only [step] at hs
+  simp only [step, htwo] at hs
   repeat' (split at hs)
   all_goals (try simp at hs)
   all_goals (first | subst hs | (obtain ⟨_, hs⟩ := hs; subst hs))
   all_goals (constructor <;> mc_close)
 
 set_option maxHeartbeats 4000000 in
-theorem inv_step_fsub (s s' : St) (f old : _) (hi : Inv s) (hs : step s (.fsub f old) = some s') : Inv s' := by
+theorem inv_step_fsub (s s' : St) (f old : _) (htwo : s.two = false) (hi : Inv s) (hs : step s (.fsub f old) = some s') : Inv s' := by
   have hI := hi
   obtain ⟨h1, h2, h3, h4, h5, h6, h7, h8, h9, h10, h11, h12, h13, h14, h15, h16, h17, h18, h19, h20, h21, h22, h23, h24, h25, h26, h27, h28, h29, h30, h31, h32⟩ := hi
-  simp only [step] at hs
+  simp only [step, htwo] at hs
   repeat' (split at hs)
   all_goals (try simp at hs)
   all_goals (first | subst hs | (obtain ⟨_, hs⟩ := hs; subst hs))
   all_goals (constructor <;> mc_close)
 
 set_option maxHeartbeats 4000000 in
-theorem inv_step_handoff (s s' : St) (f g : _) (hi : Inv s) (hs : step s (.handoff f g) = some s') : Inv s' := by
+theorem inv_step_handoff (s s' : St) (f g : _) (htwo : s.two = false) (hi : Inv s) (hs : step s (.handoff f g) = some s') : Inv s' := by
   have hI := hi
   obtain ⟨h1, h2, h3, h4, h5, h6, h7, h8, h9, h10, h11, h12, h13, h14, h15, h16, h17, h18, h19, h20, h21, h22, h23, h24, h25, h26, h27, h28, h29, h30, h31, h32⟩ := hi
-  simp only [step] at hs
+  simp only [step, htwo] at hs
   repeat' (split at hs)
   all_goals (try simp at hs)
   all_goals (first | subst hs | (obtain ⟨_, hs⟩ := hs; subst hs))
   all_goals (constructor <;> mc_close)
 
 set_option maxHeartbeats 4000000 in
-theorem inv_step_rHigh (s s' : St) (f h : _) (hi : Inv s) (hs : step s (.rHigh f h) = some s') : Inv s' := by
+theorem inv_step_rHigh (s s' : St) (f h : _) (htwo : s.two = false) (hi : Inv s) (hs : step s (.rHigh f h) = some s') : Inv s' := by
   have hI := hi
   obtain ⟨h1, h2, h3, h4, h5, h6, h7, h8, h9, h10, h11, h12, h13, h14, h15, h16, h17, h18, h19, h20, h21, h22, h23, h24, h25, h26, h27, h28, h29, h30, h31, h32⟩ := hi
-  simp only [step] at hs
+  simp only [step, htwo] at hs
+  repeat' (split at hs)
+  all_goals (try simp at hs)
+  all_goals (first | subst hs | (obtain ⟨_, hs⟩ := hs; subst hs))
+  all_goals (constructor <;> mc_close)
+
+set_option maxHeartbeats 4000000 in
+theorem inv_step_rSWaiters (s s' : St) (f w : _) (htwo : s.two = false) (hi : Inv s) (hs : step s (.rSWaiters f w) = some s') : Inv s' := by
+  have hI := hi
+  obtain ⟨h1, h2, h3, h4, h5, h6, h7, h8, h9, h10, h11, h12, h13, h14, h15, h16, h17, h18, h19, h20, h21, h22, h23, h24, h25, h26, h27, h28, h29, h30, h31, h32⟩ := hi
+  simp only [step, htwo] at hs
+  repeat' (split at hs)
+  all_goals (try simp at hs)
+  all_goals (first | subst hs | (obtain ⟨_, hs⟩ := hs; subst hs))
+  all_goals (constructor <;> mc_close)
+
+set_option maxHeartbeats 4000000 in
+theorem inv_step_wSWaiters (s s' : St) (f w : _) (htwo : s.two = false) (hi : Inv s) (hs : step s (.wSWaiters f w) = some s') : Inv s' := by
+  have hI := hi
+  obtain ⟨h1, h2, h3, h4, h5, h6, h7, h8, h9, h10, h11, h12, h13, h14, h15, h16, h17, h18, h19, h20, h21, h22, h23, h24, h25, h26, h27, h28, h29, h30, h31, h32⟩ := hi
+  simp only [step, htwo] at hs
   repeat' (split at hs)
   all_goals (try simp at hs)
   all_goals (first | subst hs | (obtain ⟨_, hs⟩ := hs; subst hs))
